@@ -30,7 +30,7 @@ import (
 
 // Case is one replayable case: one file and the passwords tried on it.
 type Case struct {
-	Space   string   `json:"space"`   // "passwords" | "permissions" | "long-passwords" | "lengths"
+	Space   string   `json:"space"`   // "passwords" | "permissions" | "long-passwords" | "lengths" | "aliasing"
 	Version string   `json:"version"` // "1.4"
 	User    string   `json:"user"`
 	Owner   string   `json:"owner"`
@@ -45,6 +45,11 @@ type Case struct {
 	LengthsTop int   `json:"lengths_top,omitempty"`
 	WriteChunk int   `json:"write_chunk,omitempty"` // size of the pieces the stream bodies are written in (0 = one Write)
 	ReadChunks []int `json:"read_chunks,omitempty"` // buffer sizes every stream is read with (0 = io.ReadAll)
+
+	// space "aliasing" only: the same Go value handed to the Writer len(AliasSlots) times (aliasing.go)
+	AliasKind  string `json:"alias_kind,omitempty"`          // string | string-overlap | array | dict
+	AliasLen   int    `json:"alias_string_length,omitempty"` // length of the string inside the value
+	AliasSlots []int  `json:"alias_slots,omitempty"`         // place of every occurrence (index into aliasSlotNames), non-decreasing
 }
 
 type failure struct {
@@ -660,9 +665,12 @@ func bitsSet(p pdf.Perm) int {
 
 func (rn *runner) one(c Case) {
 	var fs []failure
-	if c.Space == "lengths" {
+	switch c.Space {
+	case "lengths":
 		fs = rn.checkLengths(&c)
-	} else {
+	case "aliasing":
+		fs = rn.checkAliasing(&c)
+	default:
 		fs = rn.checkFile(&c)
 	}
 	for _, f := range fs {
@@ -709,7 +717,7 @@ func Run(tier string) int {
 	}
 	r := ev.New("C09", tier, "exploration", budget)
 	rn := &runner{r: r, g: theGraph()}
-	r.Rule("a case is one file (version, user password, owner password, permissions, metadata mode, HumanReadable) written by the Writer and one password it is opened with by the Reader; in the length space a case is one (cipher, write piece size, password role, length, read buffer size) stream read or (cipher, role, length) string read; evaluations count writes, opens and, in the length space, stream and string reads; distinct = the length-space cases, plus distinct (version, metadata mode, permissions, HumanReadable, prepared user password, prepared owner password, prepared try-password or 'unpreparable') tuples of encrypted files, i.e. passwords that the standard's preparation identifies count once")
+	r.Rule("a case is one file (version, user password, owner password, permissions, metadata mode, HumanReadable) written by the Writer and one password it is opened with by the Reader; in the length space a case is one (cipher, write piece size, password role, length, read buffer size) stream read or (cipher, role, length) string read; in the aliasing space a case is one (cipher, HumanReadable, value kind, string length, placement of the occurrences, password role) open with all objects read back; evaluations count writes, opens and, in the length space, stream and string reads; distinct = the length-space and aliasing-space cases, plus distinct (version, metadata mode, permissions, HumanReadable, prepared user password, prepared owner password, prepared try-password or 'unpreparable') tuples of encrypted files, i.e. passwords that the standard's preparation identifies count once")
 	r.Assume("password preparation, permission closure and expected open/fail decision come from ref/stdsec and this package (written from ISO 32000 and RFC 4013, self-tested at start); SASLprep: unassigned code points of Unicode 3.2 not checked, NFKC of the current Unicode version",
 		"passwords with a code point at an 'undefined' PDFDocEncoding position (here: U+00AD) are a grey zone for revisions <= 4: only the same string is required to open the file, a try with such a password must fail with any error",
 		"a missing owner password means the file has no password but the user password",
@@ -830,6 +838,43 @@ func Run(tier string) int {
 		rn.one(ljobs[k])
 	})
 
+	// (e) aliasing: the same Go value handed to the Writer 2 or 3 (thorough: 4)
+	// times, every distribution of the occurrences over the places of the
+	// write program x value kind x string length x version (x HumanReadable
+	// thorough) (aliasing.go)
+	ap := aliasParamsFor(r.Thorough())
+	placements := aliasPlacements(ap.mult)
+	var ajobs []Case
+	for _, v := range versions {
+		vs, _ := v.ToString()
+		for _, human := range pwHuman {
+			for _, kind := range aliasKinds {
+				for _, l := range ap.lengths {
+					for _, pl := range placements {
+						ajobs = append(ajobs, Case{Space: "aliasing", Version: vs, User: "a", Owner: "ab", Perm: int(pdf.PermCopy | pdf.PermForms), Meta: "none", Human: human,
+							AliasKind: kind, AliasLen: l, AliasSlots: pl})
+					}
+				}
+			}
+		}
+	}
+	r.Dim("aliasing_rule", "the same Go value handed to the Writer k times; every multiset of k places of one fixed write program; every occurrence must read back as written with the user and with the owner password")
+	r.Dim("aliasing_value_kinds", aliasKinds)
+	r.Dim("aliasing_places", aliasSlotNames)
+	r.Dim("aliasing_occurrences", ap.mult)
+	r.Dim("aliasing_placements", len(placements))
+	r.Dim("aliasing_string_lengths", ap.lengths)
+	r.Dim("files_aliasing_space", len(ajobs))
+	r.Par(len(ajobs), func(k int) {
+		if r.Expired() || r.TooManyViolations() {
+			return
+		}
+		// version-major job list: stride so that revision 6 files are spread over the workers
+		n := len(ajobs)
+		per := n / len(versions)
+		rn.one(ajobs[(k%len(versions))*per+k/len(versions)])
+	})
+
 	// expensive (revision 6) files are spread evenly over the workers by
 	// visiting the jobs in a strided order
 	order := make([]int, 0, len(jobs))
@@ -855,6 +900,7 @@ func Run(tier string) int {
 	r.Sample(jobs[len(jobs)-2])
 	lj := ljobs[len(ljobs)-2]
 	r.Sample(lj)
+	r.Sample(ajobs[len(ajobs)/2+5])
 	return r.Finish()
 }
 
